@@ -78,7 +78,8 @@ def gen_events(tape, big=False):
         if tape.chance("program", 1, 3, "route"):
             ev["route_code"] = tape.choice("program", ("r", "r/s"), "route")
         if tape.chance("program", 1, 2, "timestamp"):
-            ev["timestamp"] = i + 1
+            # mostly in the past of the (virtual) clock, sometimes far in its future
+            ev["timestamp"] = (i + 1) if tape.chance("program", 3, 4, "past") else 2_000_000_000 + i
         if tape.chance("program", 1, 6, "runnable"):
             ev["runnable"] = False
         evs.append(ev)
